@@ -227,6 +227,7 @@ def _digest_verdict(rest, sep_ok, cfg):
         and p['response'] == digest_expected(p, table[u], method)
         and p['uri'] == uri
         and cfg['challenge'] == 'digest'
+        and (cfg.get('issued_nonce') is None or p['nonce'] == cfg['issued_nonce'])
     )
     if canonical:
         return 'accept', u, 'digest-good'
@@ -306,7 +307,7 @@ def reference_verdict(header, cfg):
 #  Header rendering (generator side; the oracle never looks at the description)
 # =====================================================================================================
 GHOSTS = ['ghost', 'None', 'nobody', 'root']
-PASSWORDS = ['secret', '', 'None', 'pässwörd✓', 'p:w:x', 'a b', 'hunter2', 'x"y']
+PASSWORDS = ['secret', '', 'None', 'pässwörd✓', 'p:w:x', 'a b', 'hunter2', 'x"y', 'café']
 USERNAMES = ['admin', 'bob', 'Alice Smith', 'a,b', 'u=1', 'None', 'x.y-z']
 REALMS = ['Test', 'my realm', 'r', 'Realm, with comma', 'a=b']
 METHODS = ['GET', 'GET', 'POST', 'PUT', 'DELETE', 'HEAD']
@@ -339,7 +340,10 @@ def _pick_pw(sel, user, users):
     return tab.get(user, 'x') + '~wrong'
 
 
-def render_header(h, spec, uri):
+FIXED_NONCE = 'dcd98b7102dd2f0e8b11d0f600bfb0c093'
+
+
+def render_header(h, spec, uri, issued_nonce=None):
     kind = h['kind']
     users = spec['users']
     if kind == 'none':
@@ -376,7 +380,7 @@ def render_header(h, spec, uri):
     method = spec['method'] if h['method_calc'] == 'req' else ('POST' if spec['method'] != 'POST' else 'GET')
     uri_hdr = uri if h['uri'] == 'req' else h['uri']
     uri_calc = uri_hdr if h['uri_calc'] == 'hdr' else uri_hdr + 'z'
-    nonce = h['nonce']
+    nonce = (issued_nonce or FIXED_NONCE) if h['nonce'] == 'server' else h['nonce']
     nonce_calc = nonce if h['nonce_calc'] == 'hdr' else nonce + '0'
     qop = h['qop']
     alg = h['alg']
@@ -453,7 +457,7 @@ def header_strategy():
         'method_calc': _w('req', ['other'], 10),
         'uri': _w('req', ['/other', '*', ''], 10),
         'uri_calc': _w('hdr', ['other'], 12),
-        'nonce': st.sampled_from(['dcd98b7102dd2f0e8b11d0f600bfb0c093', 'n', '']),
+        'nonce': _w('server', [FIXED_NONCE, 'n', ''], 5),
         'nonce_calc': _w('hdr', ['other'], 12),
         'qop': st.sampled_from([None] * 4 + ['auth'] * 4 + ['auth-int', 'foo', 'AUTH', '']),
         'nc': _w('00000001', ['0000000a', '1', ''], 6),
@@ -539,12 +543,6 @@ def vhost_specs():
         yield {'kind': 'vhost', 'gw': gw, 'ip': ip, 'host': host, 'xfh': xfh, 'path': path}
 
 
-def vhost_strategy():
-    return st.fixed_dictionaries({
-        'kind': st.just('vhost'), 'gw': st.sampled_from(VH_GW), 'ip': st.sampled_from(VH_IPS),
-        'host': st.sampled_from(VH_HOSTS), 'xfh': st.sampled_from(VH_XFH), 'path': st.sampled_from(VH_PATHS)})
-
-
 # =====================================================================================================
 #  The property
 # =====================================================================================================
@@ -598,14 +596,15 @@ class C20(Prop):
                    'a client-invented, never issued sid that carries the presenting client\'s own fingerprint is kept by '
                    'circuits (it holds no data); only "no foreign data" is asserted for it',
                    'which 4xx/5xx or exception refuses a request is not asserted')
-    budget = {"quick": (2000, 4), "thorough": (25000, 16)}
+    budget = {'quick': (2000, 4), 'thorough': (25000, 16)}
+    enum_procs = 4          # the vhost product is 2800 cheap cases
 
     def setup(self):
         driver.quiet_process()
 
     # ------------------------------------------------------------------ generation
     def strategy(self, tier):
-        kinds = {'a': auth_strategy(), 's': session_strategy(), 'v': vhost_strategy()}
+        kinds = {'a': auth_strategy(), 's': session_strategy()}
         # the vhost product is enumerated completely in both tiers; the generated share is auth 70 % / session 30 %
         return st.sampled_from('aaaaaaasss').flatmap(lambda k: kinds[k])
 
@@ -634,10 +633,8 @@ class C20(Prop):
         else:
             table = dict((u, stored(p, u)) for u, p in users)
         realm, method, uri = spec['realm'], spec['method'], '/'
-        header = render_header(spec['hdr'], spec, uri)
         cfg = {'table': table, 'realm': realm, 'method': method, 'uri': uri, 'challenge': challenge, 'stored': stored,
-               'digest_ok': challenge == 'digest' or enc_name == 'str'}
-        verdict, who, label = reference_verdict(header, cfg)
+               'digest_ok': challenge == 'digest' or enc_name == 'str', 'issued_nonce': None}
         encrypt = _encrypt_arg(enc_name)
 
         def users_arg():
@@ -657,11 +654,18 @@ class C20(Prop):
                 return tools.basic_auth(req, res, realm, users_arg(), encrypt)
             return tools.digest_auth(req, res, realm, users_arg())
 
-        obs = []       # (where, granted, login, note)
+        def judge(issued):
+            """Render the header the way a client answering this very challenge would, and ask the reference."""
+            header = render_header(spec['hdr'], spec, uri, issued)
+            c = dict(cfg, issued_nonce=issued)
+            return (header,) + reference_verdict(header, c)
+
+        obs = []       # (where, header, verdict, who, label, granted, login, note)
 
         # ---- direct calls
         srv = FakeServer()
-        for which in ('check', 'tool'):
+
+        def direct(which, header):
             sock = FakeSock(0)
             try:
                 hl = [('Host', 'a')]
@@ -678,9 +682,15 @@ class C20(Prop):
                 except Exception as e:  # an exception refuses
                     granted = False
                     note = type(e).__name__
-                obs.append(('direct-' + which, granted, req.login, note))
+                return granted, req.login, note, res.headers.get('WWW-Authenticate')
             finally:
                 sock.close()
+
+        for which in ('check', 'tool'):
+            issued = _challenge_nonce(direct('tool', None)[3])
+            header, verdict, who, label = judge(issued)
+            granted, login, note, _ = direct(which, header)
+            obs.append(('direct-' + which, header, verdict, who, label, granted, login, note))
 
         # ---- the documented idiom inside a controller behind the real HTTP stack
         seen = []
@@ -701,24 +711,32 @@ class C20(Prop):
 
         rig = Rig(controllers=[Root()])
         try:
-            s = rig.sock(1)
-            lines = ['%s %s HTTP/1.1' % (method, uri), 'Host: a', 'Connection: close']
-            if header is not None:
-                lines.append('Authorization: ' + header)
-            if method in ('POST', 'PUT'):
-                lines.append('Content-Length: 0')
-            rig.feed(s, ('\r\n'.join(lines) + '\r\n\r\n').encode('latin-1'))
-            raw = rig.output(s)
-            dec, _ = decode_responses(raw, [method])
-            r0 = dec[0] if dec else None
-            status = r0['status'] if isinstance(r0, dict) else None
-            body = r0['body'] if isinstance(r0, dict) else None
+            def send(n, header):
+                s = rig.sock(n)
+                lines = ['%s %s HTTP/1.1' % (method, uri), 'Host: a', 'Connection: close']
+                if header is not None:
+                    lines.append('Authorization: ' + header)
+                if method in ('POST', 'PUT'):
+                    lines.append('Content-Length: 0')
+                rig.feed(s, ('\r\n'.join(lines) + '\r\n\r\n').encode('latin-1'))
+                raw = rig.output(s)
+                dec, _ = decode_responses(raw, [method])
+                r0 = dec[0] if dec else None
+                return raw, (r0 if isinstance(r0, dict) else None)
+
+            _, ch = send(1, None)
+            issued = _challenge_nonce(dict(ch['headers']).get('www-authenticate') if ch else None)
+            header, verdict, who, label = judge(issued)
+            del seen[:]
+            raw, r0 = send(2, header)
+            status = r0['status'] if r0 else None
+            body = r0['body'] if r0 else None
             if method == 'HEAD':
                 granted = status == 200
             else:
                 granted = SECRET_B in raw
             login = seen[0].login if seen else None
-            obs.append(('rig-' + idiom, granted, login, 'status=%r reached=%d' % (status, len(seen))))
+            obs.append(('rig-' + idiom, header, verdict, who, label, granted, login, 'status=%r reached=%d' % (status, len(seen))))
             rig_ok_shape = (status == 200 and (method == 'HEAD' or body == SECRET_B))
         finally:
             rig.cleanup()
@@ -731,10 +749,10 @@ class C20(Prop):
         nontrivial = verdict == 'refuse' and hk in ('basic', 'digest') and syntactic
         if nontrivial:
             classes.append('auth:credential-must-be-refused')
-        ctx = 'header=%r realm=%r method=%s challenge=%s encrypt=%s form=%s table=%r reference=%s/%s' % (
-            header, realm, method, challenge, enc_name, spec['form'], table, verdict, label)
 
-        for where, granted, login, note in obs:
+        for where, header, verdict, who, label, granted, login, note in obs:
+            ctx = 'header=%r realm=%r method=%s challenge=%s encrypt=%s form=%s table=%r reference=%s/%s' % (
+                header, realm, method, challenge, enc_name, spec['form'], table, verdict, label)
             if verdict == 'refuse':
                 if granted:
                     return Result(False, 'granted-without-credentials:' + _bucket(label, spec),
@@ -750,13 +768,13 @@ class C20(Prop):
                 if login != who:
                     return Result(False, 'login-wrong', '%s: request.login=%r, expected %r: %s' % (where, login, who, ctx),
                                   nontrivial, classes)
+                if where.startswith('rig') and not rig_ok_shape:
+                    return Result(False, 'valid-credentials-refused:' + challenge, 'rig: no 200 with the protected body: %s' % ctx,
+                                  nontrivial, classes)
             else:
                 if granted and login != who:
                     return Result(False, 'login-wrong', '%s: granted with request.login=%r, the credentials are those of %r: %s' % (
                         where, login, who, ctx), nontrivial, classes)
-        if verdict == 'accept' and not rig_ok_shape:
-            return Result(False, 'valid-credentials-refused:' + challenge, 'rig: no 200 with the protected body: %s' % ctx,
-                          nontrivial, classes)
         if rig.stuck:
             return Result(False, 'no-quiescence', 'rig did not settle: %s' % ctx, nontrivial, classes)
         return Result(True, nontrivial=nontrivial, classes=classes)
@@ -776,12 +794,69 @@ class C20(Prop):
         owner = {}             # sid -> fingerprint it was first issued to
         data = {}              # sid -> last token stored
         classes = ['session']
-        nontrivial = False
+        state = {'nontrivial': False, 'n': 0}
+
+        def bad(clause, msg):
+            return Result(False, clause, msg, state['nontrivial'], classes)
+
+        def request(ip, agent, name, cookie, quoted, variant):
+            """One request, judged against the model.  -> Result on violation, else None."""
+            state['n'] += 1
+            n = state['n']
+            fp = (ip, agent or '')
+            tok = 'tok%d' % n
+            lines = ['GET /?t=%s HTTP/1.1' % tok, 'Host: a', 'Connection: close']
+            if agent is not None:
+                lines.append('User-Agent: ' + agent)
+            if cookie is not None:
+                lines.append('Cookie: %s=%s' % (name, ('"%s"' % cookie) if quoted else cookie))
+            s = rig.sock(n, peer=ip)
+            rig.feed(s, ('\r\n'.join(lines) + '\r\n\r\n').encode('latin-1'))
+            dec, _ = decode_responses(rig.output(s), ['GET'])
+            r0 = dec[0] if dec else None
+            ctx = 'request #%d of %r: ip=%s agent=%r cookie %s=%r (%s)' % (n, spec['reqs'], ip, agent, name, cookie, variant)
+            if not isinstance(r0, dict) or r0['status'] != 200:
+                return bad('session-request-failed', 'no 200 response: %r; %s' % (r0 if not isinstance(r0, dict) else r0['status'], ctx))
+            try:
+                payload = json.loads(r0['body'].decode())
+            except ValueError:
+                return bad('session-request-failed', 'undecodable body %r; %s' % (r0['body'][:80], ctx))
+            jar = SimpleCookie()
+            for hk, hv in r0['headers']:
+                if hk == 'set-cookie':
+                    jar.load(hv)
+            if 'circuits' not in jar:
+                return bad('session-no-cookie', 'response carries no session cookie; %s' % ctx)
+            sid = jar['circuits'].value
+            presented = cookie if name == 'circuits' else None
+            legit = presented is not None and presented in owner and owner[presented] == fp
+            if presented is not None and presented in owner and owner[presented] != fp:
+                state['nontrivial'] = True
+                classes.append('session:issued-sid-from-other-fingerprint')
+            classes.append('session-cookie:' + variant)
+            if legit:
+                if payload['old'] != data.get(presented) or sid != presented or payload['sid'] != presented:
+                    return bad('session-lost', 'owner presenting its sid got old=%r sid=%r, expected %r under %r; %s' % (
+                        payload['old'], sid, data.get(presented), presented, ctx))
+            else:
+                if payload['old'] is not None:
+                    return bad('session-leak', 'data %r (stored under %r) returned to a request that does not own that sid; %s' % (
+                        payload['old'], [k2 for k2, v in data.items() if v == payload['old']], ctx))
+                if sid in issued:
+                    return bad('sid-not-fresh', 'sid %r handed out again to a request that does not own it; %s' % (sid, ctx))
+                if payload['sid'] != sid:
+                    return bad('sid-not-fresh', 'session object sid %r differs from cookie %r; %s' % (payload['sid'], sid, ctx))
+                if sid == presented:
+                    classes.append('session:client-chosen-sid-kept')
+            issued.append(sid)
+            owner.setdefault(sid, fp)
+            data[sid] = tok
+            return None
+
         try:
-            for i, r in enumerate(spec['reqs']):
+            for r in spec['reqs']:
                 ip = IPS[r['ip'] % len(IPS)]
                 agent = AGENTS[r['agent'] % len(AGENTS)]
-                fp = (ip, agent or '')
                 variant, k = r['cookie']
                 base = issued[k % len(issued)] if issued else None
                 if base is None and variant not in ('none', 'garbage', 'empty'):
@@ -800,8 +875,13 @@ class C20(Prop):
                 elif variant == 'noslash':
                     cookie = base.split('/', 1)[0]
                 elif variant == 'fp-own':
-                    # an attacker who knows the victim's random part and the public fingerprint recipe
-                    cookie = base.split('/', 1)[0] + '/' + hashlib.sha1((ip + (agent or '')).encode()).hexdigest()
+                    # an attacker who knows the victim's random part first asks the server for a session of his own
+                    # and grafts the fingerprint part he was given onto the victim's random part
+                    res = request(ip, agent, name, None, False, 'fp-own-probe')
+                    if res is not None:
+                        return res
+                    mine = issued[-1]
+                    cookie = base.split('/', 1)[0] + '/' + (mine.split('/', 1)[1] if '/' in mine else '')
                 elif variant == 'fp-only':
                     cookie = '/' + (base.split('/', 1)[1] if '/' in base else '')
                 elif variant == 'garbage':
@@ -810,61 +890,14 @@ class C20(Prop):
                     cookie = ''
                 else:  # other-name
                     cookie, name = base, 'circuitz'
-                tok = 'tok%d' % i
-                lines = ['GET /?t=%s HTTP/1.1' % tok, 'Host: a', 'Connection: close']
-                if agent is not None:
-                    lines.append('User-Agent: ' + agent)
-                if cookie is not None:
-                    lines.append('Cookie: %s=%s' % (name, ('"%s"' % cookie) if r['quoted'] else cookie))
-                s = rig.sock(i + 1, peer=ip)
-                rig.feed(s, ('\r\n'.join(lines) + '\r\n\r\n').encode('latin-1'))
-                dec, _ = decode_responses(rig.output(s), ['GET'])
-                r0 = dec[0] if dec else None
-                ctx = 'request %d of %r: ip=%s agent=%r cookie %s=%r (%s)' % (i, spec['reqs'], ip, agent, name, cookie, variant)
-                if not isinstance(r0, dict) or r0['status'] != 200:
-                    return Result(False, 'session-request-failed', 'no 200 response: %r; %s' % (r0 if not isinstance(r0, dict) else r0['status'], ctx),
-                                  nontrivial, classes)
-                try:
-                    payload = json.loads(r0['body'].decode())
-                except ValueError:
-                    return Result(False, 'session-request-failed', 'undecodable body %r; %s' % (r0['body'][:80], ctx), nontrivial, classes)
-                jar = SimpleCookie()
-                for hk, hv in r0['headers']:
-                    if hk == 'set-cookie':
-                        jar.load(hv)
-                if 'circuits' not in jar:
-                    return Result(False, 'session-no-cookie', 'response carries no session cookie; %s' % ctx, nontrivial, classes)
-                sid = jar['circuits'].value
-                presented = cookie if name == 'circuits' else None
-                legit = presented is not None and presented in owner and owner[presented] == fp
-                if presented is not None and presented in owner and owner[presented] != fp:
-                    nontrivial = True
-                    classes.append('session:issued-sid-from-other-fingerprint')
-                classes.append('session-cookie:' + variant)
-                if legit:
-                    if payload['old'] != data.get(presented) or sid != presented or payload['sid'] != presented:
-                        return Result(False, 'session-lost', 'owner presenting its sid got old=%r sid=%r, expected %r under %r; %s' % (
-                            payload['old'], sid, data.get(presented), presented, ctx), nontrivial, classes)
-                else:
-                    if payload['old'] is not None:
-                        return Result(False, 'session-leak', 'data %r (stored under %r) returned to a request that does not own that sid; %s' % (
-                            payload['old'], [k2 for k2, v in data.items() if v == payload['old']], ctx), nontrivial, classes)
-                    if sid in issued:
-                        return Result(False, 'sid-not-fresh', 'sid %r handed out again to a request that does not own it; %s' % (sid, ctx),
-                                      nontrivial, classes)
-                    if payload['sid'] != sid:
-                        return Result(False, 'sid-not-fresh', 'session object sid %r differs from cookie %r; %s' % (payload['sid'], sid, ctx),
-                                      nontrivial, classes)
-                    if sid == presented:
-                        classes.append('session:client-chosen-sid-kept')
-                issued.append(sid)
-                owner.setdefault(sid, fp)
-                data[sid] = tok
+                res = request(ip, agent, name, cookie, r['quoted'], variant)
+                if res is not None:
+                    return res
             if rig.stuck:
-                return Result(False, 'no-quiescence', 'rig did not settle', nontrivial, classes)
+                return bad('no-quiescence', 'rig did not settle')
         finally:
             rig.cleanup()
-        return Result(True, nontrivial=nontrivial, classes=classes)
+        return Result(True, nontrivial=state['nontrivial'], classes=classes)
 
     # ------------------------------------------------------------------ virtual hosts
     def _vhost(self, spec):
@@ -933,6 +966,19 @@ class C20(Prop):
             return Result(True, nontrivial=nontrivial, classes=classes)
         finally:
             rig.cleanup()
+
+
+def _challenge_nonce(www_authenticate):
+    """nonce of a Digest challenge (None for Basic / none): a client answers with the nonce it was given."""
+    if not www_authenticate:
+        return None
+    sp = split_scheme(www_authenticate)
+    if sp is None or sp[0] != 'digest':
+        return None
+    for k, v in parse_auth_params(sp[1])[0]:
+        if k.lower() == 'nonce':
+            return v or None
+    return None
 
 
 def _names_user(header):
